@@ -744,6 +744,7 @@ func (r *lcRun) step(o lcOp) {
 			return
 		}
 		r.awaitServe()
+		w.logScript(evReServe, 0, 0, 0)
 		r.reserve()
 	case opCancel:
 		if r.cancelled {
@@ -1156,10 +1157,8 @@ func lcWithWriteTimeout(sc []lcOp, n int) []lcOp {
 
 // Stream "lifecycle_reserve": the same Server value served twice.  The first Serve is ended by cancelling
 // its context while a connection of it is still alive (a handler in flight, or an idle connection in a
-// long Read); Serve is called again on a new listener; then Shutdown.  The LTS models one call of serve,
-// so these runs are NOT replayed through it: they are judged by the executable statement of C17 alone
-// (verdict_lifecycle_C17: a Shutdown that returns nil has closed every connection Accept had returned,
-// no started handler is left without its reply, Serve returns ErrServerClosed, ...).
+// long Read); Serve is called again on a new listener (event 18, the LTS step LReServe); then Shutdown.
+// The runs are replayed through the LTS like those of "lifecycle" and judged by verdict_lifecycle_C17.
 func init() {
 	streams["lifecycle_reserve"] = func(seed uint64, thorough bool) {
 		log.SetOutput(lcLogWriter{})
